@@ -249,7 +249,14 @@ func shapeOf(out *vrt.Outcome) string {
 			ks = append(ks, op+"@"+siteFunc(b.Site)+who)
 		}
 		sort.Strings(ks)
-		return string(out.Status) + ":" + strings.Join(ks, ",")
+		// a set: how many workers are parked at one site depends on the data, not on the defect
+		uniq := ks[:0]
+		for i, k := range ks {
+			if i == 0 || k != ks[i-1] {
+				uniq = append(uniq, k)
+			}
+		}
+		return string(out.Status) + ":" + strings.Join(uniq, ",")
 	case vrt.StHorizon:
 		if strings.Contains(out.Detail, "tick") {
 			return "horizon:tick-budget"
@@ -702,7 +709,7 @@ func lexerGuard(r *common.Run, kinds []recog.Kind) bool {
 		if out.Status != vrt.StOK {
 			ok = false
 			c := Case{Space: "S0", Origin: what, Text: text, Store: "empty", BulkSize: 1}
-			r.Fail(common.Failure{Check: "exec", Class: "canonical-lexemes:" + what, Shape: "lexer-alone:" + shapeOf(out), Case: c,
+			r.Fail(common.Failure{Check: "exec", Class: "lexer-guard:" + what, Shape: "lexer-alone:" + shapeOf(out), Case: c,
 				Detail: fmt.Sprintf("lexing %q alone (no parser): %s %s", text, out.Status, out.Detail)})
 		}
 	}
@@ -805,9 +812,9 @@ func main() {
 
 	// ---- generate the spaces
 	maxPrefix := r.Pick(6, 9)
-	sentLen, mutLen, editLen := r.Pick(14, 15), r.Pick(12, 13), r.Pick(13, 15)
+	sentLen, mutLen, editLen := r.Pick(14, 15), r.Pick(12, 14), r.Pick(13, 15)
 	s3Len := r.Pick(3, 4)
-	k := r.Pick(101, 53)
+	k := r.Pick(101, 37)
 	if s := os.Getenv("C08_PARAMS"); s != "" { // maxPrefix,sentLen,mutLen,editLen,s3Len,k (trial runs)
 		fmt.Sscanf(s, "%d,%d,%d,%d,%d,%d", &maxPrefix, &sentLen, &mutLen, &editLen, &s3Len, &k)
 	}
